@@ -290,7 +290,7 @@ pub fn sampled(
     let mut done = 0u64;
     let mut round = ctx.shard;
     let mut attempts = 0;
-    while done < budget && ctx.viols.len() < ctx.max_viols && attempts < budget * 8 {
+    while done < budget && ctx.per_sig.len() < ctx.max_viols && attempts < budget * 8 {
         attempts += 1;
         let cfg = cfgs[round % cfgs.len()];
         round += 1;
@@ -1342,7 +1342,7 @@ pub fn fault_sampled(ctx: &mut Ctx, family: &str, cfgs: &[CfgEntry], l: usize, g
     let mut done = 0u64;
     let mut round = ctx.shard;
     let mut attempts = 0;
-    while done < budget && attempts < budget * 10 && ctx.viols.len() < ctx.max_viols {
+    while done < budget && attempts < budget * 10 && ctx.per_sig.len() < ctx.max_viols {
         attempts += 1;
         let cfg = cfgs[round % cfgs.len()];
         round += 1;
